@@ -1,15 +1,16 @@
 #!/bin/bash
-# seedtest.sh <seeded-dir> <check-id>...   applies the seeded change to /repo, runs the quick checks, undoes it.
-# Prints one line per check: CAUGHT / MISSED.
+# seedtest.sh <seeded-dir> <check-id>...   runs the quick checks against a scratch copy of /repo's working tree that carries the
+# seeded change (VERIF_REPO), writing evidence and replays under the scratch directory (VERIF_OUT): /repo, /verif/evidence and
+# /verif/replays are not touched, so registered checks may run at the same time.  Prints one line per check: CAUGHT / MISSED.
 set -u
 D=$1; shift
-cd /repo || exit 2
-if [ -n "$(git status --porcelain)" ]; then echo "/repo is not clean"; exit 2; fi
-git apply "$D/patch.diff" || { echo "patch does not apply"; exit 2; }
-trap 'git -C /repo checkout -- . ' EXIT
+S=$(mktemp -d /var/tmp/verif-seed-XXXXXX)
+trap 'rm -rf "$S"' EXIT
+rsync -a --exclude .git /repo/ "$S/repo/"
+( cd "$S/repo" && git apply "$D/patch.diff" ) || { echo "patch does not apply"; exit 2; }
 cd /verif
 for p in "$@"; do
-  out=$(VERIF_TIER=${TIER:-quick} python3 tools/check.py $p --tier ${TIER:-quick} 2>&1 | grep -v "^KNOWN-FINDING" | tail -4)
+  out=$(VERIF_REPO="$S/repo" VERIF_OUT="$S/out" VERIF_TIER=${TIER:-quick} python3 tools/check.py $p --tier ${TIER:-quick} 2>&1 | grep -v "^KNOWN-FINDING" | tail -4)
   if echo "$out" | grep -q "^VIOLATION"; then
     r=$(echo "$out" | grep "^VIOLATION" | head -1 | sed 's/.*replay=//; s/ .*//')
     echo "CAUGHT $p $(basename $D): $(python3 -c "import json,sys; d=json.load(open('$r')); print((d.get('oracle') or d.get('error') or d.get('theorem') or '')[:160].replace(chr(10),' '))")"
